@@ -64,6 +64,16 @@ Reading of the property (what the oracle demands; chosen so that minimally repai
   no_played_note, hammer_bounce, trailing_played_note) at random.  A quarter of these files also get duplicate /
   conflicting lines injected (de-duplication on the old formats).
 * Every case runs under a wall-clock limit; a writer/reader that does not terminate is a failure.
+* Round 4: performed times reach hours (late passages) and clocks are as fine as 10000 ticks per quarter at 60000
+  microseconds per quarter; every written and loaded tick must be the nearest tick of the binary64 seconds of the
+  saved note / control dictionaries (exact rational arithmetic, clauses perf / text-tick / pedal).  Ticks stay below
+  2^31: PerformedPart.note_array stores them as int32 and raises beyond (outside this property).
+* Round 4: "measures at the same positions" includes the END of the last bar that holds a stored note and that
+  nothing was added (clauses measure-end / measure-extra / measure-chain, see oracle_measures): demanded when that
+  bar is complete under the time signature in force at its start - the property's "complete final measure"; the
+  format stores no measure lengths, so a reader can only close the last bar with that signature - and is not the
+  pickup.  Measures AFTER it exist legitimately when something stored sounds or stands there (a stored note tied
+  across the bar line, a later signature): add_measures fills the timeline; they are not judged.
 """
 import io
 import contextlib
@@ -368,9 +378,13 @@ def gen_case(rng, tier="quick"):
             ppq = rng.choice([4000, 4000, 10000, 960, 1920, rng.randint(2000, 10000)])
         if rng.random() < 0.5:
             mpq = rng.choice([500000, 250000, 100000, rng.randint(60000, 500000)])
+    # PerformedPart.note_array holds ticks as int32: a performed part whose last tick does not fit has no note array
+    # at all (not this property's concern); keep every tick below 5e8 (a factor 4 of room for the 'resave' clocks)
+    span = (pd["measures"][-1][1] / divs + 2) * spq + 4
+    t0 = max(0.0, min(t0, 5e8 * mpq / (1e6 * ppq) - span))
     if rng.random() < 0.3:
         # a construction history with read-only views in between (stale memoisation), see gen_score.build_part
-        pd["warm"] = rng.randint(1, 255)
+        pd["warm"] = (rng.randint(1, 255) & ~32) or 1      # not bit 5: its "full" readers take seconds per part
 
     def q(t):
         if not on_grid:
